@@ -22,8 +22,13 @@ def mk_block_class(bd, idx, binary=False):
     from cfinterface.components.block import Block
     _counter[0] += 1
 
+    # what read() returns: the reading driver must not depend on it ("t" True, "h" honest: False when the content ended before
+    # the end marker, "n" None); chosen per class from the definition, deterministically
+    ret = bd.get("ret", "tthn"[(len(str(bd.get("begin"))) + len(str(bd.get("end")))) % 4])
+
     def read(self, file, *args, **kwargs):
         chunks = []
+        complete = False
         if binary:
             b = file.read(1)
             if len(b):
@@ -34,6 +39,7 @@ def mk_block_class(bd, idx, binary=False):
                         break
                     chunks.append(b)
                     if self.ends(b, "BINARY"):
+                        complete = True
                         break
         else:
             while True:
@@ -42,9 +48,10 @@ def mk_block_class(bd, idx, binary=False):
                     break
                 chunks.append(l)
                 if self.ends(l):
+                    complete = True
                     break
         self.data = chunks
-        return True
+        return True if ret == "t" else (None if ret == "n" else complete)
 
     def write(self, file, *args, **kwargs):
         for c in self.data:
@@ -71,26 +78,34 @@ def mk_blockfile_class(blocks, binary=False, encoding=None):
 def mk_section_class(sd, idx):
     from cfinterface.components.section import Section
     _counter[0] += 1
-    kind, arg = sd
+    kind, arg = sd[0], sd[1]
+    # what read() returns: the reading driver must not depend on it ("t" always True, "h" honest: False when the content ended
+    # inside the section, "n" None)
+    ret = sd[2] if len(sd) > 2 else "t"
 
     def read(self, file, *args, **kwargs):
         lines = []
+        complete = True
         if kind == "lines":
             for _ in range(arg):
                 l = file.readline()
                 if len(l):
                     lines.append(l)
+                else:
+                    complete = False
         else:
             rx = regex_of(arg)
+            complete = False
             while True:
                 l = file.readline()
                 if len(l) == 0:
                     break
                 lines.append(l)
                 if re.search(rx, l) is not None:
+                    complete = True
                     break
         self.data = lines
-        return True
+        return True if ret == "t" else (None if ret == "n" else complete)
 
     def write(self, file, *args, **kwargs):
         for l in self.data:
